@@ -14,12 +14,13 @@ CONSTANTS
   SlewMax = 200
   MaxSamples = 1
   Ghosts = FALSE
+  Readd = FALSE
   OffPos = {0}
   OffNeg = {}
   LeapVals = {"none", "59", "61", "unknown", "unsync"}
   Wides = {FALSE}
   MaxChan = 1
-  Bound = 2
+  Bound = 0
   UsableVals = {TRUE}
 INIT Init
 NEXT Next
